@@ -94,8 +94,9 @@ class Lam(I.Imp):
         self.known_ctors = known
         self.fparams = dict(FPARAMS)
         for p, _ in self.params:
-            if p in FIELDS:
-                raise Unsupported("parameter %s has the name of a field" % p)
+            if p in FIELDS or re.match(r"^(c|call|r)_\d+$", p) or p.startswith("l_") or \
+                    any(re.match("^" + re.escape(f) + r"\d+$", p) for f in FIELDS):
+                raise Unsupported("the name %s of a parameter is a field or looks like a generated name" % p)
 
     def loc(self, n, env):
         root, steps = self.path(n, env)
